@@ -153,9 +153,11 @@ def _expect(T, arr, zvars):
     out = np.empty(arr.shape, dtype=object)
     for idx in np.ndindex(*arr.shape):
         x = C(arr[idx])
-        assert not x.re.d and x.im.is_zero(), "expectation of a non-polynomial"
-        t = {}
-        for m, c in x.re.n.t.items():
+        assert not x.re.d and not x.im.d, "expectation of a non-polynomial"
+        parts = []
+        for part in (x.re, x.im):
+          t = {}
+          for m, c in part.n.t.items():
             keep = []
             zero = False
             for v, e in m:
@@ -171,15 +173,17 @@ def _expect(T, arr, zvars):
                 continue
             mm = tuple(keep)
             t[mm] = t.get(mm, 0) + c
-        out[idx] = Sym(Rat(Poly({m: c for m, c in t.items() if c})))
+          parts.append(Rat(Poly({m: c for m, c in t.items() if c})))
+        out[idx] = Sym(parts[0], parts[1])
     return out
 
 
-def case_hutch_symbolic(T, n, k, rand, kind):
-    """symbolic probes: exactness on Diagonal with Rademacher probes; unbiasedness in general"""
+def case_hutch_symbolic(T, n, k, rand, kind, complex_=False):
+    """symbolic probes: exactness on Diagonal with Rademacher probes; unbiasedness in general (real and complex operators: the estimate of a
+    complex (off-)diagonal is that diagonal, not its conjugate)"""
     from symx import rng, shim
     de, dt_ = _mods()
-    dt = 'float64'
+    dt = 'complex128' if complex_ else 'float64'
     if kind == "diag":
         d = T.arr("d", (n, ), dt)
         A = ops.Diagonal(d)
@@ -190,7 +194,7 @@ def case_hutch_symbolic(T, n, k, rand, kind):
         Mref = K.raw(T, M) if T.sym else M
     if not T.sym:
         # float replay on the real generator: exactness is deterministic; unbiasedness is tested statistically over 400 keys (6 sigma)
-        want = np.diag(Mref, k).real
+        want = np.diag(Mref, k) if complex_ else np.diag(Mref, k).real
         if kind == "diag" and rand == "rademacher" and k == 0:
             est, _ = de.hutchinson_diag_estimate(A, k=k, tol=5e-2, max_iters=1, rand=rand, key=3)
             T.eq("Rademacher probes: exact on a Diagonal operator", est, want.astype(est.dtype), dtype=False)
@@ -281,6 +285,9 @@ def cases(tier, seed):
         for k in ([0, 1, -1] if n == 2 else [0, 1, -1, 2, -2]):
             for rand in ("normal", "rademacher"):
                 out.append((f"hutch-unbiased:n{n}k{k}:{rand}", case_hutch_symbolic, dict(n=n, k=k, rand=rand, kind="dense")))
+                if n == 2 or k in (0, 1):
+                    out.append((f"hutch-unbiased-complex:n{n}k{k}:{rand}", case_hutch_symbolic, dict(n=n, k=k, rand=rand, kind="dense", complex_=True)))
+        out.append((f"hutch-exact-complex:diag{n}", case_hutch_symbolic, dict(n=n, k=0, rand="rademacher", kind="diag", complex_=True)))
     for m in (1, 2, 5, 17):
         for k in (0, 2, -1):
             for rand in ("normal", "rademacher"):
